@@ -391,14 +391,6 @@ func (it *ropeIter) next() tuple {
 
 type goroutineParked struct{}
 
-// blocked is called when the running thread would block forever in the sequential model.
-func (i *interpreter) blocked(why string) {
-	if i.inGoroutine > 0 {
-		panic(goroutineParked{})
-	}
-	panic(abortPath{why: "main thread blocks: " + why, kind: "unsupported"})
-}
-
 type memFile struct {
 	data symStr
 }
